@@ -93,13 +93,13 @@ var (
 func attributeExists(args ...Object) Object {
 	path := args[0]
 
-	return nativeBoolToBooleanObject(path.Type() != ObjectTypeNull)
+	return nativeBoolToBooleanObject(!isUndefined(path))
 }
 
 func attributeNotExists(args ...Object) Object {
 	path := args[0]
 
-	return nativeBoolToBooleanObject(path.Type() == ObjectTypeNull)
+	return nativeBoolToBooleanObject(isUndefined(path))
 }
 
 func attributeType(args ...Object) Object {
@@ -112,6 +112,11 @@ func attributeType(args ...Object) Object {
 			return newError("invalid type %s", strObj.Value)
 		}
 
+		if isUndefined(path) {
+			// a missing attribute has no type
+			return FALSE
+		}
+
 		return nativeBoolToBooleanObject(path.Type() == ObjectType(strObj.Value))
 	}
 
@@ -121,6 +126,10 @@ func attributeType(args ...Object) Object {
 func beginsWith(args ...Object) Object {
 	path := args[0]
 	substr := args[1]
+
+	if isUndefined(path) {
+		return FALSE
+	}
 
 	if path.Type() == ObjectTypeString {
 		if substr.Type() != ObjectTypeString {
@@ -147,6 +156,10 @@ func beginsWith(args ...Object) Object {
 func contains(args ...Object) Object {
 	path := args[0]
 	operand := args[1]
+
+	if isUndefined(path) {
+		return FALSE
+	}
 
 	container, ok := path.(ContainerObject)
 	if !ok {
